@@ -815,6 +815,10 @@ class Signature:
         bound_args: BoundArgs = {}
         star_args_consumed = False
         star_kwargs_consumed = False
+        # Only parameters that take arbitrary keywords (**kwargs, ParamSpec, ...)
+        # set this; star_kwargs_consumed is also set by named parameters that
+        # may be filled from a **kwargs argument.
+        extra_keywords_allowed = False
         param_spec_consumed = False
 
         for param in self.parameters.values():
@@ -1021,6 +1025,7 @@ class Signature:
                 bound_args[param.name] = position, Composite(star_args_value)
             elif param.kind is ParameterKind.VAR_KEYWORD:
                 star_kwargs_consumed = True
+                extra_keywords_allowed = True
                 items = {}
                 for key, (
                     definitely_provided,
@@ -1053,6 +1058,7 @@ class Signature:
                 # just take it all
                 star_args_consumed = True
                 star_kwargs_consumed = True
+                extra_keywords_allowed = True
                 param_spec_consumed = True
                 val = AnyValue(AnySource.ellipsis_callable)
                 bound_args[param.name] = UNKNOWN, Composite(val)
@@ -1071,6 +1077,7 @@ class Signature:
                     is actual_args.star_kwargs.param_spec
                 ):
                     star_kwargs_consumed = True
+                    extra_keywords_allowed = True
                     star_args_consumed = True
                     composite = Composite(
                         TypeVarValue(
@@ -1099,6 +1106,7 @@ class Signature:
                     )
                     star_args_consumed = True
                     star_kwargs_consumed = True
+                    extra_keywords_allowed = True
                     val = CallValue(new_actuals)
                     bound_args[param.name] = UNKNOWN, Composite(val)
             else:
@@ -1111,7 +1119,7 @@ class Signature:
                 ctx,
             )
             return None
-        if not star_kwargs_consumed:
+        if not extra_keywords_allowed:
             extra_kwargs = set(actual_args.keywords) - keywords_consumed
             if extra_kwargs:
                 extra_kwargs_str = ", ".join(map(repr, extra_kwargs))
